@@ -39,7 +39,7 @@ const EPOCH = 900
 var Base = time.Unix(1700000000, 0)
 
 var fixedTokens = map[string]bool{"": true, ".": true, "..": true, ".git": true, ".terraform": true,
-	"modules": true, " ": true, "..n": true, "s.n": true, ".terraformignore": true, "pax_global_header": true, "terraform-sources.json": true}
+	"modules": true, " ": true, "..n": true, "..\\v": true, "s.n": true, ".terraformignore": true, "pax_global_header": true, "terraform-sources.json": true}
 
 // Gamma maps abstract name tokens to real path segments.
 // RuleFileC is the content id of a .terraformignore file; its text travels
